@@ -50,8 +50,9 @@ Spec == Init /\ [][Next]_vars
 (* Properties                                                              *)
 (***************************************************************************)
 \* every call in every configuration: parts non-negative, net = signed rule, None only when empty
-Split == \A call \in Calls(st.cf) : SplitOK(st.cf, call)
-Direction == \A call \in Calls(st.cf) :
+\* (they only depend on the configuration, which never changes: evaluated where n = 0)
+Split == st.n > 0 \/ \A call \in Calls(st.cf) : SplitOK(st.cf, call)
+Direction == st.n > 0 \/ \A call \in Calls(st.cf) :
                 DirectionOK(st.cf, call) /\ RewardFlipOK(st.cf, call) /\ HomeoDirectionOK(st.cf, call)
 
 \* what has accumulated in the updater over several calls (e.g. a positive then a
